@@ -68,6 +68,15 @@ type WithUnexported struct {
 	hidden
 }
 
+// exported names are those starting with an upper-case letter of any script
+type UniInner struct{ Ölstand string }
+type Unicode struct {
+	Ärger string
+	Émile int
+	Ωmega string
+	*UniInner
+}
+
 type Meth struct{ V string }
 
 func (m Meth) Val() string                { return "val:" + m.V }
@@ -206,6 +215,9 @@ type Root struct {
 
 	Str string
 
+	Uni  Unicode
+	PUni *Unicode
+
 	Iface    interface{} // holds an Inner
 	IfacePtr interface{} // holds a *Inner
 	IfaceNil interface{}
@@ -234,6 +246,8 @@ func (g *Gen) Root() *Root {
 	r.Dict = Dict{"dk": g.Tok()}
 	r.DocD = DocDeepFirst{Audit: Audit{Stamp: Stamp{ID: g.Tok(), Seq: 3}, By: g.Tok()}, Meta: Meta{ID: g.Tok(), Rev: 4}, Title: g.Tok()}
 	r.DocS = DocShallowFirst{Meta: Meta{ID: g.Tok(), Rev: 5}, Audit: Audit{Stamp: Stamp{ID: g.Tok(), Seq: 6}, By: g.Tok()}, Title: g.Tok()}
+	r.Uni = Unicode{Ärger: g.Tok(), Émile: 61, Ωmega: g.Tok(), UniInner: &UniInner{Ölstand: g.Tok()}}
+	r.PUni = &Unicode{Ärger: g.Tok(), Émile: 62, Ωmega: g.Tok(), UniInner: &UniInner{Ölstand: g.Tok()}}
 	r.In = g.inner()
 	pin := g.inner()
 	r.PIn = &pin
@@ -368,7 +382,10 @@ func (p Path) Src(base string) string {
 			for _, a := range s.Args {
 				as = append(as, lit(a))
 			}
-			if base == "." && i == 0 {
+			if s.Bracket {
+				// a method is a member like a field: a["M"](args) is a.M(args)
+				b.WriteString(fmt.Sprintf("[%q](%s)", s.Name, strings.Join(as, ", ")))
+			} else if base == "." && i == 0 {
 				b.WriteString(s.Name + "(" + strings.Join(as, ", ") + ")")
 			} else {
 				b.WriteString("." + s.Name + "(" + strings.Join(as, ", ") + ")")
